@@ -554,7 +554,7 @@ func (s *session) ensureQueryBasedGroups(logEvent flows.EventCallback) {
 		return
 	}
 
-	added, removed := s.contact.ReevaluateQueryBasedGroups(s.Environment())
+	added, removed := s.contact.ReevaluateQueryBasedGroups(s.MergedEnvironment())
 
 	// add groups changed event for the groups we were added/removed to/from
 	if len(added) > 0 || len(removed) > 0 {
